@@ -10,6 +10,10 @@ mod c04;
 mod c10;
 mod c11;
 mod c12;
+mod c13;
+mod c16;
+mod c17;
+mod c18;
 mod faultio;
 mod objs;
 mod selfcheck;
@@ -59,6 +63,22 @@ fn main() {
             }
         }
     }
+    if tier != "miri" {
+        let r = match prop.as_str() {
+            "C16" => Some(c16::self_check()),
+            "C17" => Some(c17::self_check()),
+            "C18" => Some(c18::self_check()),
+            _ => None,
+        };
+        match r {
+            Some(Ok(n)) => eprintln!("model agrees with {} frozen vectors", n),
+            Some(Err(e)) => {
+                println!("INCONCLUSIVE\tmodel self-check failed: {}", e);
+                std::process::exit(3);
+            }
+            None => {}
+        }
+    }
     let rep: Rep = match (prop.as_str(), &replay) {
         ("C04", None) => c04::run(&tier, seed),
         ("C04", Some(a)) => c04::replay(a),
@@ -74,6 +94,14 @@ fn main() {
         ("C11", Some(a)) => c11::replay(a, seed),
         ("C12", None) => c12::run(&tier, seed),
         ("C12", Some(a)) => c12::replay(a),
+        ("C13", None) => c13::run(&tier, seed),
+        ("C13", Some(a)) => c13::replay(a),
+        ("C16", None) => c16::run(&tier, seed),
+        ("C16", Some(a)) => c16::replay(a),
+        ("C17", None) => c17::run(&tier, seed),
+        ("C17", Some(a)) => c17::replay(a),
+        ("C18", None) => c18::run(&tier, seed),
+        ("C18", Some(a)) => c18::replay(a),
         _ => {
             eprintln!("unknown property {}", prop);
             std::process::exit(2);
